@@ -421,6 +421,8 @@ def check(tree, rep, tier='quick', seed=0):
     from ..core import get_core
     from .. import corerules as R
     R.k28_threshold_lookup_pure(get_core(tree), rep)
+    from ..linerules import l2c_generators_consumed_once
+    l2c_generators_consumed_once(tree, rep)      # an aggregate over an already consumed generator adds nothing: operands silently missing
     # ---- R2.7 "enter here and on Form X, line N": the named line of the other form carries this line (both ends equal)
     n_carry = 0
     for (y, fr, line, tform, tline, text, where) in carries:
